@@ -473,6 +473,7 @@ func TestC02(t *testing.T) {
 	if !run.Replaying() {
 		run.Require("restart|deadFirst=true", "restart|deadFirst=false")
 	}
+	run.Complete()
 	if run.Violations() > 0 {
 		t.Errorf("%d violation(s)", run.Violations())
 	}
